@@ -18,6 +18,8 @@ macro_rules! registry {
     };
 }
 
+pub mod c04_calls;
+pub mod callsup;
 pub mod pinned;
 pub mod progdiff;
 pub mod typesound;
@@ -25,7 +27,9 @@ pub mod typesound;
 registry! {
     c01 => "C01",
     c02 => "C02",
+    c03 => "C03",
     c04 => "C04",
+    c05 => "C05",
     c06 => "C06",
     c07 => "C07",
     c08 => "C08",
@@ -34,6 +38,7 @@ registry! {
     c11 => "C11",
     c12 => "C12",
     c13 => "C13",
+    c14 => "C14",
     c15 => "C15",
     c16 => "C16",
     c17 => "C17",
@@ -53,6 +58,7 @@ registry! {
     c31 => "C31",
     c32 => "C32",
     c33 => "C33",
+    c34 => "C34",
     c35 => "C35",
     c36 => "C36",
 }
